@@ -176,3 +176,27 @@ PROPS["C14"] = dict(
     rule=_DECODE_RULE + "Decoders additionally: hostile-spelling dictionary at frame rates 100/50/125 with FSG or alignment-text grammars over those spellings; JSON level 0/1/2 and start offset per case. Non-trivial = a JSON result with >= 2 word entries; distinct = distinct case text.",
     assumptions=["word spellings are valid UTF-8 without whitespace (the dictionary format cannot carry whitespace)"],
 )
+
+PROPS["C07"] = dict(
+    harness="decode",
+    level="exploration",
+    technique="differential property-based testing: the same audio, grammar and channel-normalisation state decoded in one call (in an isolated copy of the pristine process) vs in generated chunkings / buffering modes / entry points / partial-query schedules; exact equality of the canonical result record",
+    level_text="For generated audio shorter than the live-CMN update window, the record (hypothesis, path score, every segment with frames and scores, decoder_n_frames, frames searched, full word/phone/state alignment) of a run with arbitrary chunking (down to single samples, first chunk shorter than a window, no_search chunks, float32 entry, partial hyp/seg/lattice/N-best/JSON/alignment queries in between) must be string-equal to the record of the one-call run after the same decoder_set_cmn.",
+    level_note="Trusted: fork isolation (both runs start from the same pristine decoder image), the canonical record. full_utt is not part of the equality (its documentation promises potentially different results).",
+    quick=dict(cases=90, maxlen=600, budget=100),
+    thorough=dict(cases=3000, maxlen=600, budget=1200),
+    rule=_DECODE_RULE + "Variant run: chunk plan, per-chunk no_search, int16|float32, partial-query mask; cmn state from {default, generated, zero}. Non-trivial = >= 3 chunks and the one-call run has a hypothesis; distinct = distinct case text.",
+    assumptions=["audio shorter than 300 frames so that live CMN cannot shift inside the utterance (the property's own restriction)"],
+)
+
+PROPS["C08"] = dict(
+    harness="decode",
+    level="exploration",
+    technique="differential property-based testing over generated histories: the target utterance after a history of utterances / grammar switches / failed utterances / result queries vs the same utterance on a fresh decoder (isolated copy of the pristine process); repetition determinism; two-decoder interleavings vs solo runs",
+    level_text="Generated histories of 1-4 utterances (streaming, buffered, full_utt; zero audio; no hypothesis; grammar switched and switched back; partial and final lattice/N-best/JSON/alignment queries; set_cmn) followed by a target utterance whose channel-normalisation state is reset with decoder_set_cmn (no reset for full_utt with cmn=batch): the canonical record must equal the one of a fresh decoder, and running it twice gives the same record; chunk-level interleavings of two live decoders must give each decoder its solo record; get_cmn/set_cmn text is a fixpoint.",
+    level_note="Trusted: fork isolation as the definition of 'fresh decoder' (same pristine image), the canonical record (hyp, score, segments with scores, frame counts, alignment, lattice size).",
+    quick=dict(cases=22, maxlen=900, budget=90),
+    thorough=dict(cases=2000, maxlen=900, budget=1500),
+    rule=_DECODE_RULE + "History family: 1-4 history utterances then a target; decoders default | compallsen | cmn=batch. Two-decoder family: two utterances interleaved chunk by chunk. Non-trivial = history of >= 2 steps differing from the target in audio or grammar and a target hypothesis (history family), or a hypothesis on either decoder (two-decoder family); distinct = distinct case text.",
+    assumptions=["the channel-normalisation state is the one deliberate carry-over and is reset with decoder_set_cmn"],
+)
